@@ -584,21 +584,25 @@ extern (*GlobalWindow).getKeyAndValues
 
 func lookupFieldValue
   props C17
+  option pure
   ensures bare-column-direct-lookup: true
 
 func toAggregateValue
   props C17
+  option pure
   ensures non-null-stays-non-null: v != nil ==> result != nil
 
 func feedAggs
   props C17
   modifies pkgheaps(functions)
   before Add null-or-missing-input-is-never-fed: $arg1 != nil
+  before Add only-count-star-counts-rows-every-other-aggregate-is-fed-the-rows-own-value: (spec.inputField == "*" ==> $arg1 == boxof(1, int)) && (spec.inputField != "*" ==> second(lookupFieldValue(data, spec.inputField)) && lookupFieldValue(data, spec.inputField) != nil && $arg1 == toAggregateValue(lookupFieldValue(data, spec.inputField)))
 
 func feedTriggerAggs
   props C17
   modifies pkgheaps(functions)
   before Add null-or-missing-input-is-never-fed: $arg1 != nil
+  before Add only-count-star-counts-rows-every-other-aggregate-is-fed-the-rows-own-value: (spec.inputField == "*" ==> $arg1 == boxof(1, int)) && (spec.inputField != "*" ==> second(lookupFieldValue(data, spec.inputField)) && lookupFieldValue(data, spec.inputField) != nil && $arg1 == toAggregateValue(lookupFieldValue(data, spec.inputField)))
 
 func newGroupState
   props C17
